@@ -81,10 +81,9 @@ def summarize_crash(stderr, rc):
     if m:
         s = m.group(1)
         # add the innermost fix8 frame for site-keyed classification
-        fm = re.search(r"#\d+ 0x[0-9a-f]+ in ([^\n]*?)(?:/repo/|/verif/)([^\s:]+):(\d+)", stderr)
         site = ""
-        for fm in re.finditer(r"#\d+ 0x[0-9a-f]+ in (\S+).*? (/repo/[^\s:]+):(\d+)", stderr):
-            site = " at %s:%s" % (os.path.relpath(fm.group(2), "/repo"), fm.group(3))
+        for fm in re.finditer(r"#\d+ 0x[0-9a-f]+ in (\S+).*? (" + re.escape(B.REPO) + r"/[^\s:]+):(\d+)", stderr):
+            site = " at %s:%s" % (os.path.relpath(fm.group(2), B.REPO), fm.group(3))
             break
         return re.sub(r"\s+", " ", s)[:160] + site
     return "exit %d" % rc
@@ -575,7 +574,8 @@ def shrink_pick(suite, built, cases, impl, model, new_fail, tier):
 
 
 def write_evidence(pid, ev):
-    d = os.path.join(VERIF, "evidence")
+    # runs against a private copy of the repository (mutant rehearsals) do not touch the evidence
+    d = os.path.join(VERIF, "evidence") if B.REPO == "/repo" else os.path.join(B.CACHE, "evidence-mutants")
     os.makedirs(d, exist_ok=True)
     tmp = os.path.join(d, ".%s.json.tmp%d" % (pid, os.getpid()))
     json.dump(ev, open(tmp, "w"), indent=1)
